@@ -105,6 +105,10 @@ func genWriteSet(rng *rand.Rand, universe [][]byte, cur model.Snap, vc *int, shr
 			ops = append(ops, v2op{del: true, k: k})
 		case present && rng.Intn(6) == 0:
 			ops = append(ops, v2op{k: k, v: []byte(cur[string(k)])}) // identical rewrite
+		case !present && rng.Intn(8) == 0:
+			ops = append(ops, v2op{del: true, k: k}) // removal of a key that is not there: must change nothing
+		case rng.Intn(12) == 0:
+			ops = append(ops, v2op{k: k, v: []byte{}}) // empty (non-nil) value
 		default:
 			*vc++
 			ops = append(ops, v2op{k: k, v: []byte(fmt.Sprintf("v%d", *vc))})
